@@ -14,7 +14,7 @@ HDR = '// WASHANG WASKILL WASSLOW WASFORK\n'
 def scen_basic(rng):
     """two test cases (one in a sub-directory), odd modes, a pre-existing .orig, unrelated files"""
     return {'name': 'basic', 'tree': {'a.c': {'text': 'keep1\nx\ny\nz\n', 'mode': '640'}, 'sub/b.c': {'text': 'keepb\nw\nv\n', 'mode': '600'},
-                                     'other.txt': {'text': 'untouched', 'mode': '604'}, 'a.c.orig': {'text': 'older backup'},
+                                     'other.txt': {'text': 'untouched', 'mode': '604'}, 'a.c.orig': {'text': 'older backup', 'age_s': 86400},      # an existing backup, older than its test case
                                      'sub/b.c.orig': {'text': '', 'mode': '600'},        # an existing backup that happens to be empty
                                      'sub/notes': {'text': 'n'}},
             'test_cases': ['a.c', 'sub/b.c'], 'predicate': 'grep -q keep1 a.c && grep -q keepb sub/b.c',
